@@ -2,6 +2,7 @@
    Only statements; proofs are in Proofs/. *)
 From Coq Require Import List NArith ZArith Permutation.
 Require Import Base Mol Partition Canon MolProofs PartitionProofs CanonProofs.
+Require ParamsSpec.   (* regenerated source constants still match what the model hard-codes *)
 
 (* For every labelling oracle that returns a bijection onto 0..n-1 (H1), the canonical graph is the
    input under a one-to-one renaming lam of its atoms onto 0..n-1: atom by atom, in the same listing
